@@ -149,6 +149,20 @@ def schema_enum(class_name: str) -> dict[str, int]:
   return out
 
 
+def _same_object(a, b) -> bool:
+  """`a is b` on folded values: values are rebuilt by the interpreter, so equal
+  values of one kind count as the same object - except across kinds that can
+  never be one object in Python (a plain str and an enum member, even a
+  str-enum whose value equals the string)."""
+  if a is b:
+    return True
+  if (a is None) != (b is None):
+    return False
+  if isinstance(a, EnumVal) != isinstance(b, EnumVal):
+    return False
+  return a == b
+
+
 _BINOPS = {
     ast.Add: operator.add, ast.Sub: operator.sub, ast.Mult: operator.mul,
     ast.Div: operator.truediv, ast.FloorDiv: operator.floordiv,
@@ -159,8 +173,8 @@ _BINOPS = {
 _CMPOPS = {
     ast.Eq: operator.eq, ast.NotEq: operator.ne, ast.Lt: operator.lt,
     ast.LtE: operator.le, ast.Gt: operator.gt, ast.GtE: operator.ge,
-    ast.Is: lambda a, b: a is b or (a is None) == (b is None) and a == b,
-    ast.IsNot: lambda a, b: not (a is b or (a is None) == (b is None) and a == b),
+    ast.Is: lambda a, b: _same_object(a, b),
+    ast.IsNot: lambda a, b: not _same_object(a, b),
     ast.In: lambda a, b: a in b, ast.NotIn: lambda a, b: a not in b,
 }
 
